@@ -245,8 +245,8 @@ pub fn run_c20(ctx: &mut Ctx) {
     {
         let defs: Vec<&str> = vec![
             "pub type Unk1 { pub a: u32, }",
-            "pub type Unk01 { pub a: u16, pub b: u16, }",
-            "pub type Unk001 { pub a: u8, pub b: u8, pub c: u16, }",
+            "#[align(4)] pub type Unk01 { pub a: u16, pub b: u16, }",
+            "#[align(4)] pub type Unk001 { pub a: u8, pub b: u8, pub c: u16, }",
             "pub type Unk10 { pub u: *const Unk9, pub a: u32, pub b: u32, }",
             "pub type Unk9 { pub a: u32, }",
             "pub type unk1 { pub a: u32, }",
